@@ -44,6 +44,42 @@ def source_structs():
     return out
 
 
+_ENUMS = None
+
+
+def source_enums():
+    """enum name -> [(variant, [(field, type)] | None)] for the program crate (struct-like variants carry their fields)"""
+    global _ENUMS
+    if _ENUMS is not None: return _ENUMS
+    out = {}
+    root = os.path.join(M.REPO, 'programs/whirlpool/src')
+    for dp, _, fs in os.walk(root):
+        for f in fs:
+            if not f.endswith('.rs'): continue
+            txt = re.sub(r'//[^\n]*', '', open(os.path.join(dp, f)).read())
+            for m in re.finditer(r'\benum\s+(\w+)\s*(?:<[^>{]*>)?\s*\{', txt):
+                i = m.end(); d = 1; j = i
+                while j < len(txt) and d:
+                    if txt[j] == '{': d += 1
+                    elif txt[j] == '}': d -= 1
+                    j += 1
+                body = re.sub(r'#\[(?:[^\[\]]|\[[^\[\]]*\])*\]', '', txt[i:j - 1], flags=re.S)
+                vs = []
+                for part in M.split_top(body):
+                    mm = re.match(r'\s*(\w+)\s*(?:\{(.*)\})?', part.strip(), re.S)
+                    if not mm: continue
+                    fields = None
+                    if mm.group(2) is not None:
+                        fields = []
+                        for fp in M.split_top(mm.group(2)):
+                            fm = re.match(r'\s*(\w+)\s*:\s*(.*)$', fp.strip(), re.S)
+                            if fm: fields.append((fm.group(1), ' '.join(fm.group(2).split())))
+                    vs.append((mm.group(1), fields))
+                if vs: out.setdefault(m.group(1), vs)
+    _ENUMS = out
+    return out
+
+
 class Acct:
     """an account: symbolic key + its deserialised data value (or None)"""
     def __init__(s, name, key, data=None): s.name, s.key, s.data = name, key, data
@@ -91,6 +127,9 @@ class Havoc:
             return Opaque('array:' + name)
         if base in self.structs and depth < 4:
             return S({f: self.value(t, f'{name}_{f}', depth + 1) for f, t in self.structs[base]})
+        en = source_enums().get(base)
+        if en and len(en) == 1 and en[0][1] is not None and depth < 4:      # single struct-like variant: the value is that variant with havocked fields
+            return E(en[0][0], [self.value(t, f'{name}_{f}', depth + 1) for f, t in en[0][1]])
         return Opaque(f'{base}:{name}')
 
     def result(self, ty, name, path):
